@@ -148,7 +148,7 @@ PROPS = {
         "assumptions": ["database/sql passes statement text and arguments unchanged to the driver"],
     },
     "C15": {
-        "prop_files": ["Katib/Props/C15.lean", 'Katib/Props/C03Restartable.lean'],
+        "prop_files": ["Katib/Props/C15.lean", 'Katib/Props/C03Restartable.lean', 'Katib/Props/C15Guards.lean'],
         "n": {"quick": 4000, "thorough": 100000},
         "rule": "stored experiment (budget values, resume policy, status.trials 0-6, completion state none/MaxTrialsReached/GoalReached/Failed) x update: no spec edit, "
                 "budget edits (change/remove any of the three), or an edit of one place of the spec enumerated by reflection over ExperimentSpec (every leaf, pointer->nil, "
